@@ -1,1 +1,918 @@
-fn main() { eprintln!("not built yet"); std::process::exit(2); }
+//! C16 — BLP encode→parse is exact; mip chain; offsets; lossless encodings preserve pixels.
+//!
+//! Space: image dimensions x pixel class x target (version/encoding/alpha) x mipmaps(+filter).
+//! Every case runs the real `image_to_blp` → `encode_blp`/`encode_blp0` → `parse_blp*` →
+//! `blp_to_image` of /repo and judges with (a) the round-trip relation `parse(encode(t)) == t`,
+//! (b) an independent byte-level walker/decoder (`refblp`, written from /repo/docs) for the
+//! header, offset/size table, mip chain and RAW1/RAW3 pixel data.
+mod refblp;
+
+use image::{DynamicImage, RgbImage, RgbaImage};
+use refblp::Kind;
+use serde_json::{json, Value};
+use vcore::*;
+use wow_blp::convert::{
+    blp_to_image, image_to_blp, AlphaBits, Blp2Format, BlpOldFormat, BlpTarget, DxtAlgorithm, FilterType,
+};
+use wow_blp::encode::{encode_blp, encode_blp0, save_blp};
+use wow_blp::parser::{load_blp, parse_blp, parse_blp_with_externals};
+use wow_blp::{BlpContent, BlpImage};
+
+// ------------------------------------------------------------------ axes
+
+#[derive(Clone, Copy, Debug, PartialEq, Eq)]
+enum Fmt {
+    Raw3,
+    Raw1(u32),
+    Dxt1(bool),
+    Dxt3(bool),
+    Dxt5(bool),
+    Jpeg(bool),
+}
+
+#[derive(Clone, Copy, Debug)]
+struct Tgt {
+    ver: u8,
+    fmt: Fmt,
+    alg: u8, // 0 RangeFit, 1 ClusterFit, 2 IterativeClusterFit
+}
+
+impl Tgt {
+    fn alpha_bits(b: u32) -> AlphaBits {
+        match b {
+            0 => AlphaBits::NoAlpha,
+            1 => AlphaBits::Bit1,
+            4 => AlphaBits::Bit4,
+            _ => AlphaBits::Bit8,
+        }
+    }
+    fn alg(&self) -> DxtAlgorithm {
+        match self.alg {
+            0 => DxtAlgorithm::RangeFit,
+            1 => DxtAlgorithm::ClusterFit,
+            _ => DxtAlgorithm::IterativeClusterFit,
+        }
+    }
+    fn to_target(&self) -> BlpTarget {
+        let old = |f: Fmt| match f {
+            Fmt::Raw1(b) => BlpOldFormat::Raw1 { alpha_bits: Self::alpha_bits(b) },
+            Fmt::Jpeg(a) => BlpOldFormat::Jpeg { has_alpha: a },
+            _ => unreachable!(),
+        };
+        match self.ver {
+            0 => BlpTarget::Blp0(old(self.fmt)),
+            1 => BlpTarget::Blp1(old(self.fmt)),
+            _ => BlpTarget::Blp2(match self.fmt {
+                Fmt::Raw1(b) => Blp2Format::Raw1 { alpha_bits: Self::alpha_bits(b) },
+                Fmt::Raw3 => Blp2Format::Raw3,
+                Fmt::Jpeg(a) => Blp2Format::Jpeg { has_alpha: a },
+                Fmt::Dxt1(a) => Blp2Format::Dxt1 { has_alpha: a, compress_algorithm: self.alg() },
+                Fmt::Dxt3(a) => Blp2Format::Dxt3 { has_alpha: a, compress_algorithm: self.alg() },
+                Fmt::Dxt5(a) => Blp2Format::Dxt5 { has_alpha: a, compress_algorithm: self.alg() },
+            }),
+        }
+    }
+    fn kind(&self) -> Kind {
+        match self.fmt {
+            Fmt::Raw1(b) => Kind::Raw1(b),
+            Fmt::Raw3 => Kind::Raw3,
+            Fmt::Dxt1(_) => Kind::Dxt(8),
+            Fmt::Dxt3(_) | Fmt::Dxt5(_) => Kind::Dxt(16),
+            Fmt::Jpeg(_) => Kind::Jpeg,
+        }
+    }
+    /// short class used inside symptom strings
+    fn class(&self) -> &'static str {
+        match self.fmt {
+            Fmt::Raw1(_) => "raw1",
+            Fmt::Raw3 => "raw3",
+            Fmt::Dxt1(_) | Fmt::Dxt3(_) | Fmt::Dxt5(_) => "dxt",
+            Fmt::Jpeg(_) => "jpeg",
+        }
+    }
+    fn fmt_name(&self) -> String {
+        match self.fmt {
+            Fmt::Raw1(b) => format!("raw1/a{b}"),
+            Fmt::Raw3 => "raw3".into(),
+            Fmt::Dxt1(a) => format!("dxt1/{}", if a { "alpha" } else { "noalpha" }),
+            Fmt::Dxt3(a) => format!("dxt3/{}", if a { "alpha" } else { "noalpha" }),
+            Fmt::Dxt5(a) => format!("dxt5/{}", if a { "alpha" } else { "noalpha" }),
+            Fmt::Jpeg(a) => format!("jpeg/{}", if a { "alpha" } else { "noalpha" }),
+        }
+    }
+    fn ver_name(&self) -> &'static str {
+        ["BLP0", "BLP1", "BLP2"][self.ver as usize]
+    }
+}
+
+fn targets(tier: Tier) -> Vec<Tgt> {
+    let mut v = vec![];
+    let t = |ver, fmt| Tgt { ver, fmt, alg: 0 };
+    // simplest first: BLP2 raw3 (lossless), raw1, dxt, jpeg; then BLP1, BLP0
+    v.push(t(2, Fmt::Raw3));
+    for b in [0, 1, 4, 8] {
+        v.push(t(2, Fmt::Raw1(b)));
+    }
+    for a in [false, true] {
+        v.push(t(2, Fmt::Dxt1(a)));
+    }
+    for a in [false, true] {
+        v.push(t(2, Fmt::Dxt3(a)));
+    }
+    for a in [false, true] {
+        v.push(t(2, Fmt::Dxt5(a)));
+    }
+    for a in [false, true] {
+        v.push(t(2, Fmt::Jpeg(a)));
+    }
+    for ver in [1, 0] {
+        for b in [0, 1, 4, 8] {
+            v.push(t(ver, Fmt::Raw1(b)));
+        }
+        for a in [false, true] {
+            v.push(t(ver, Fmt::Jpeg(a)));
+        }
+    }
+    if tier == Tier::Thorough {
+        v.push(Tgt { ver: 2, fmt: Fmt::Dxt1(true), alg: 1 });
+        v.push(Tgt { ver: 2, fmt: Fmt::Dxt3(true), alg: 1 });
+        v.push(Tgt { ver: 2, fmt: Fmt::Dxt5(true), alg: 1 });
+        v.push(Tgt { ver: 2, fmt: Fmt::Dxt5(true), alg: 2 });
+    }
+    v
+}
+
+const PIXEL_CLASSES: [&str; 5] = ["all_transparent", "few_colours_opaque", "many_colours_alpha_ramp", "checker_varying_alpha", "rgb8_input_few_colours"];
+
+/// alpha values straddling every 4-bit rounding boundary and the 1-bit ones; prime length so that
+/// the pattern never aligns with a row width
+const ALPHA_TABLE: [u8; 13] = [0, 255, 1, 8, 9, 16, 17, 127, 128, 136, 200, 247, 254];
+
+/// Build the source image; returns it together with the RGBA pixels the library will see.
+fn make_image(w: u32, h: u32, class: usize) -> (DynamicImage, Vec<[u8; 4]>) {
+    let mut px = Vec::with_capacity((w * h) as usize);
+    for y in 0..h {
+        for x in 0..w {
+            let i = (y * w + x) as usize;
+            let p = match class {
+                0 => [(x * 7 + 3) as u8, (y * 11 + 5) as u8, ((x + y) * 13) as u8, 0],
+                1 | 4 => {
+                    const C: [[u8; 3]; 5] = [[255, 0, 0], [0, 255, 0], [0, 0, 255], [250, 250, 5], [10, 20, 30]];
+                    let c = C[((x * 3 + y * 5) % 5) as usize];
+                    [c[0], c[1], c[2], 255]
+                }
+                2 => {
+                    // > 256 distinct colours once there are > 256 pixels
+                    let k = (i as u32).wrapping_mul(2654435761);
+                    [(k >> 24) as u8, (k >> 13) as u8, (i as u32 * 5 + (k >> 5)) as u8, ALPHA_TABLE[i % ALPHA_TABLE.len()]]
+                }
+                _ => {
+                    let c = if (x + y) % 2 == 0 { 255 } else { 0 };
+                    [c, c, 255 - c / 2, (x * 37 + y * 91 + 3) as u8]
+                }
+            };
+            px.push(p);
+        }
+    }
+    if class == 4 {
+        let mut im = RgbImage::new(w, h);
+        for (i, p) in im.pixels_mut().enumerate() {
+            p.0 = [px[i][0], px[i][1], px[i][2]];
+        }
+        (DynamicImage::ImageRgb8(im), px)
+    } else {
+        let mut im = RgbaImage::new(w, h);
+        for (i, p) in im.pixels_mut().enumerate() {
+            p.0 = px[i];
+        }
+        (DynamicImage::ImageRgba8(im), px)
+    }
+}
+
+fn filters(tier: Tier) -> Vec<(&'static str, FilterType)> {
+    let mut v = vec![("Nearest", FilterType::Nearest), ("Triangle", FilterType::Triangle)];
+    if tier == Tier::Thorough {
+        v.extend([("CatmullRom", FilterType::CatmullRom), ("Gaussian", FilterType::Gaussian), ("Lanczos3", FilterType::Lanczos3)]);
+    }
+    v
+}
+
+fn dims(tier: Tier) -> Vec<(u32, u32)> {
+    let mut v = vec![];
+    let mut square = |sides: &[u32]| {
+        for &w in sides {
+            for &h in sides {
+                v.push((w, h));
+            }
+        }
+    };
+    match tier {
+        Tier::Quick => {
+            square(&[1, 2, 3, 4, 5, 6, 7, 8, 9, 15, 16, 17, 31, 32, 33]);
+            square(&[1, 2, 4, 8, 16, 32, 64]);
+            v.extend([(256, 256), (256, 64), (64, 256), (512, 512), (100, 60)]);
+        }
+        Tier::Thorough => {
+            square(&(1..=33).collect::<Vec<u32>>());
+            square(&[1, 2, 3, 4, 5, 7, 8, 16, 17, 31, 32, 33, 63, 64, 65, 127, 128, 129]);
+            square(&[1, 2, 4, 8, 16, 32, 64, 128, 256, 512]);
+            v.extend([(100, 60), (60, 100), (300, 200), (511, 512), (512, 511), (257, 255), (500, 3)]);
+        }
+    }
+    v.sort_by_key(|&(w, h)| (w.max(h), w * h, w));
+    v.dedup();
+    v
+}
+
+const DIMS_QUICK: &str = "{1..9,15,16,17,31,32,33}^2 + {1,2,4,..,64}^2 + 256x256, 256x64, 64x256, 512x512, 100x60";
+const DIMS_THOROUGH: &str = "{1..33}^2 + {1,2,3,4,5,7,8,16,17,31,32,33,63,64,65,127,128,129}^2 + {1,2,4,..,512}^2 + 100x60, 60x100, 300x200, 511x512, 512x511, 257x255, 500x3";
+
+// ------------------------------------------------------------------ the space
+
+struct Main {
+    tier: Tier,
+    dims: Vec<(u32, u32)>,
+    targets: Vec<Tgt>,
+    filters: Vec<(&'static str, FilterType)>,
+    scratch: Scratch,
+}
+
+struct Case {
+    w: u32,
+    h: u32,
+    class: usize,
+    tgt: Tgt,
+    mip: bool,
+    filter: (&'static str, FilterType),
+}
+
+impl Main {
+    fn new(tier: Tier) -> Main {
+        Main { tier, dims: dims(tier), targets: targets(tier), filters: filters(tier), scratch: Scratch::new("c16") }
+    }
+    /// one case = (target, image size); the pixel classes and mipmap/filter settings are the inner loop
+    fn radices(&self) -> [u64; 2] {
+        [self.targets.len() as u64, self.dims.len() as u64]
+    }
+    fn subs(&self) -> u64 {
+        (1 + self.filters.len() as u64) * PIXEL_CLASSES.len() as u64
+    }
+    fn sub_case(&self, i: u64, sub: u64) -> Case {
+        let d = gen::mixed_radix(i, &self.radices());
+        let e = gen::mixed_radix(sub, &[1 + self.filters.len() as u64, PIXEL_CLASSES.len() as u64]);
+        let (w, h) = self.dims[d[1] as usize];
+        let mip = e[0] > 0;
+        let filter = if mip { self.filters[e[0] as usize - 1] } else { self.filters[0] };
+        Case { w, h, class: e[1] as usize, tgt: self.targets[d[0] as usize], mip, filter }
+    }
+}
+
+fn describe_case(c: &Case) -> Value {
+    // does any level of the full chain have ceil(w*h/16) != ceil(w/4)*ceil(h/4) 4x4 tiles?
+    let tiles_differ = |w: u32, h: u32| (w * h + 15) / 16 != ((w + 3) / 4) * ((h + 3) / 4);
+    let any = (0..refblp::full_chain_levels(c.w, c.h)).any(|i| {
+        let (lw, lh) = refblp::level_dims(c.w, c.h, i);
+        tiles_differ(lw, lh)
+    });
+    json!({
+        "w": c.w, "h": c.h,
+        "shape": if c.w == c.h { "square" } else { "nonsquare" },
+        "pow2": c.w.is_power_of_two() && c.h.is_power_of_two(),
+        "version": c.tgt.ver_name(),
+        "format": c.tgt.fmt_name(),
+        "dxt_alg": if c.tgt.class() == "dxt" { ["RangeFit", "ClusterFit", "IterativeClusterFit"][c.tgt.alg as usize] } else { "-" },
+        "tiles_ne_pixels_div16": {"level0": tiles_differ(c.w, c.h), "some_level": any},
+    })
+}
+
+fn level_len(t: &BlpImage, i: usize) -> usize {
+    match &t.content {
+        BlpContent::Jpeg(j) => j.images[i].len(),
+        BlpContent::Raw1(x) => x.images[i].len(),
+        BlpContent::Raw3(x) => x.images[i].len(),
+        BlpContent::Dxt1(x) | BlpContent::Dxt3(x) | BlpContent::Dxt5(x) => x.images[i].len(),
+    }
+}
+
+fn level_bytes_of(t: &BlpImage, i: usize) -> Vec<u8> {
+    match &t.content {
+        BlpContent::Jpeg(j) => j.images[i].clone(),
+        BlpContent::Raw1(x) => {
+            let mut v = x.images[i].indexed_rgb.clone();
+            v.extend(&x.images[i].indexed_alpha);
+            v
+        }
+        BlpContent::Raw3(x) => x.images[i].pixels.iter().flat_map(|p| p.to_le_bytes()).collect(),
+        BlpContent::Dxt1(x) | BlpContent::Dxt3(x) | BlpContent::Dxt5(x) => x.images[i].content.clone(),
+    }
+}
+
+fn rgba_of(img: &DynamicImage) -> Vec<[u8; 4]> {
+    img.to_rgba8().pixels().map(|p| p.0).collect()
+}
+
+fn first_diff<T: PartialEq>(a: &[T], b: &[T]) -> Option<usize> {
+    if a.len() != b.len() {
+        return Some(a.len().min(b.len()));
+    }
+    (0..a.len()).find(|&i| a[i] != b[i])
+}
+
+impl Main {
+    fn judge(&self, idx: u64, c: &Case, r: &mut CaseResult) {
+        let (w, h) = (c.w, c.h);
+        let cls = c.tgt.class();
+        let ver = c.tgt.ver_name();
+        let kind = c.tgt.kind();
+        let (img, src) = make_image(w, h, c.class);
+        let full = if c.mip { refblp::full_chain_levels(w, h) } else { 1 };
+        let ctx = format!("{}x{} {} {} {} mip={} filter={}", w, h, PIXEL_CLASSES[c.class], ver, c.tgt.fmt_name(), c.mip, c.filter.0);
+
+        // ---- convert
+        let t = match image_to_blp(img, c.mip, c.tgt.to_target(), c.filter.1) {
+            Ok(t) => t,
+            Err(e) => {
+                r.err_return = true;
+                r.outcome = format!("{ver}|{cls}|convert_err");
+                r.count("convert_refusals", 1);
+                let _ = e;
+                return;
+            }
+        };
+        r.nontrivial = true;
+        let levels = t.image_count();
+        r.count("levels_produced", levels as u64);
+
+        // ---- B: mip chain of the converted texture
+        if levels != full {
+            if !c.mip {
+                r.viol(format!("mipmaps off but converter produced more than one level [{cls}]"), format!("{ctx}: {levels} levels"));
+            } else if w != h && levels == refblp::ilog2_floor(w.min(h)) as usize + 1 {
+                r.viol(
+                    "mip chain: converter stops halving when the shorter side reaches 1, chain never reaches 1x1 (non-square image)",
+                    format!("{ctx}: {levels} levels, last is {:?}; a chain down to 1x1 has {full} levels", refblp::level_dims(w, h, levels.saturating_sub(1))),
+                );
+            } else {
+                r.viol(format!("mip chain: level count differs from floor(log2(max side))+1 [{cls}]"), format!("{ctx}: {levels} levels, expected {full}"));
+            }
+        }
+        if t.header.width != w || t.header.height != h {
+            r.viol("converted header width/height differ from the image", format!("{ctx}: header {}x{}", t.header.width, t.header.height));
+        }
+        if t.header.has_mipmaps() != c.mip {
+            r.viol("converted header has_mipmaps flag differs from request", format!("{ctx}: {:?}", t.header.flags));
+        }
+        for i in 0..levels {
+            let (lw, lh) = refblp::level_dims(w, h, i);
+            if let Some(want) = refblp::level_bytes(kind, lw, lh) {
+                let got = level_len(&t, i);
+                if got != want {
+                    r.viol(
+                        format!("mip chain: converted level data size does not match max(1,w>>i) x max(1,h>>i) [{cls}]"),
+                        format!("{ctx}: level {i} ({lw}x{lh}) has {got} bytes, expected {want}"),
+                    );
+                    break;
+                }
+            }
+        }
+
+        // ---- C: encode
+        let (bytes, ext): (Vec<u8>, Vec<Vec<u8>>) = if c.tgt.ver == 0 {
+            match encode_blp0(&t) {
+                Ok(x) => (x.blp_bytes, x.blp_mipmaps),
+                Err(e) => {
+                    r.viol(format!("encode_blp0 rejects the texture produced by image_to_blp [{ver} {cls}]"), format!("{ctx}: {e}"));
+                    r.outcome = format!("{ver}|{cls}|lv{levels}|encode_err");
+                    return;
+                }
+            }
+        } else {
+            match encode_blp(&t) {
+                Ok(x) => (x, vec![]),
+                Err(e) => {
+                    r.viol(format!("encode_blp rejects the texture produced by image_to_blp [{ver} {cls}]"), format!("{ctx}: {e}"));
+                    r.outcome = format!("{ver}|{cls}|lv{levels}|encode_err");
+                    return;
+                }
+            }
+        };
+        r.count("bytes_encoded", bytes.len() as u64 + ext.iter().map(|e| e.len() as u64).sum::<u64>());
+
+        // ---- D: parse and compare
+        let parsed = if c.tgt.ver == 0 {
+            let extr = &ext;
+            parse_blp_with_externals(&bytes, move |i| Ok(extr.get(i).map(|v| v.as_slice())))
+        } else {
+            parse_blp(&bytes)
+        };
+        let parsed = match parsed {
+            Ok(p) => Some(p),
+            Err(e) => {
+                let msg = format!("{e}");
+                if c.tgt.ver == 0 && msg.contains("no body of image") && ext.len() == levels && levels < full {
+                    r.viol(
+                        "BLP0 parse demands more external mip levels than encode_blp0 produced (truncated non-square chain)",
+                        format!("{ctx}: {} external levels produced; parser: {msg}", ext.len()),
+                    );
+                } else {
+                    r.viol(format!("parser rejects the encoder's output [{ver} {cls}]"), format!("{ctx}: {msg}"));
+                }
+                None
+            }
+        };
+        if let Some(p) = &parsed {
+            self.compare(c, &ctx, &t, p, "parse(encode(t))", r);
+        }
+
+        // ---- BLP0 through the file system (save_blp / load_blp with .bNN side files)
+        if c.tgt.ver == 0 {
+            let path = self.scratch.path(&format!("c{idx}.blp"));
+            match save_blp(&t, &path) {
+                Err(e) => r.viol(format!("save_blp rejects the texture produced by image_to_blp [{ver} {cls}]"), format!("{ctx}: {e}")),
+                Ok(()) => match load_blp(&path) {
+                    Err(e) => {
+                        let msg = format!("{e}");
+                        if msg.contains("no body of image") && levels < full {
+                            r.viol(
+                                "BLP0 parse demands more external mip levels than encode_blp0 produced (truncated non-square chain)",
+                                format!("{ctx}: load_blp(save_blp(t)): {msg}"),
+                            );
+                        } else {
+                            r.viol(format!("load_blp rejects the files written by save_blp [{ver} {cls}]"), format!("{ctx}: {msg}"));
+                        }
+                    }
+                    Ok(p) => {
+                        self.compare(c, &ctx, &t, &p, "load_blp(save_blp(t))", r);
+                        r.count("blp0_fs_roundtrips", 1);
+                    }
+                },
+            }
+            let _ = std::fs::remove_file(&path);
+            for i in 0..17 {
+                let _ = std::fs::remove_file(self.scratch.path(&format!("c{idx}.b{i:02}")));
+            }
+        }
+
+        // ---- E: independent walk of the bytes
+        let lvl_data = self.walk_bytes(c, &ctx, &t, &bytes, &ext, r);
+
+        // ---- F: pixels
+        if let Some(ld) = &lvl_data {
+            self.pixels(c, &ctx, &src, &bytes, ld, parsed.as_ref(), r);
+        }
+
+        r.outcome = format!("{ver}|{cls}|lv{levels}/{full}|{}", if r.viols.is_empty() { "held" } else { "viol" });
+    }
+
+    /// structural comparison with classification of the difference
+    fn compare(&self, c: &Case, ctx: &str, t: &BlpImage, p: &BlpImage, rel: &str, r: &mut CaseResult) {
+        let cls = c.tgt.class();
+        let ver = c.tgt.ver_name();
+        r.count("structure_comparisons", 1);
+        if p == t {
+            return;
+        }
+        let before = r.viols.len();
+        if p.header != t.header {
+            r.viol(format!("{rel}: header differs [{ver} {cls}]"), format!("{ctx}: parsed {:?} vs written {:?}", p.header, t.header));
+        }
+        if std::mem::discriminant(&p.content) != std::mem::discriminant(&t.content) {
+            r.viol(format!("{rel}: content variant differs [{ver} {cls}]"), format!("{ctx}: parsed {:?} vs written {:?}", p.compression_type(), t.compression_type()));
+            return;
+        }
+        let (np, nt) = (p.image_count(), t.image_count());
+        if np != nt {
+            let full = if c.mip { refblp::full_chain_levels(c.w, c.h) } else { 1 };
+            if np > nt && nt < full && np == full && (nt..np).all(|i| level_len(p, i) == 0) {
+                r.viol(
+                    format!("{rel}: parser appends empty levels beyond the written chain (reads mipmaps_count+1 entries regardless of size 0) [{cls}]"),
+                    format!("{ctx}: written {nt} levels, parsed {np}"),
+                );
+            } else {
+                r.viol(format!("{rel}: level count differs [{ver} {cls}]"), format!("{ctx}: written {nt} levels, parsed {np}"));
+            }
+        }
+        for i in 0..np.min(nt) {
+            let (a, b) = (level_bytes_of(p, i), level_bytes_of(t, i));
+            if a != b {
+                let (lw, lh) = refblp::level_dims(c.w, c.h, i);
+                let by_pixel_count = match c.tgt.kind() {
+                    Kind::Dxt(block) => ((lw as usize * lh as usize + 15) / 16) * block,
+                    _ => usize::MAX,
+                };
+                if cls == "dxt" && a.len() < b.len() && a.len() == by_pixel_count && b[..a.len()] == a[..] {
+                    r.viol(
+                        format!("{rel}: dxt level truncated by the parser (block count taken from ceil(w*h/16) instead of ceil(w/4)*ceil(h/4))"),
+                        format!("{ctx}: level {i} ({lw}x{lh}): written {} bytes, parsed {}", b.len(), a.len()),
+                    );
+                } else {
+                    r.viol(
+                        format!("{rel}: level data differs [{ver} {cls}]"),
+                        format!("{ctx}: level {i} ({lw}x{lh}): written {} bytes, parsed {} bytes, first difference at {:?}", b.len(), a.len(), first_diff(&a, &b)),
+                    );
+                }
+                break;
+            }
+        }
+        if r.viols.len() == before {
+            // palette / jpeg header / anything else
+            r.viol(format!("{rel}: texture differs outside header and level data (palette or jpeg header) [{ver} {cls}]"), format!("{ctx}"));
+        }
+    }
+
+    /// Walk the file bytes with the independent reader. Returns (offset-or-external, bytes) of each level found.
+    fn walk_bytes(&self, c: &Case, ctx: &str, t: &BlpImage, bytes: &[u8], ext: &[Vec<u8>], r: &mut CaseResult) -> Option<Vec<Vec<u8>>> {
+        let cls = c.tgt.class();
+        let ver = c.tgt.ver_name();
+        let kind = c.tgt.kind();
+        let rh = match refblp::parse_header(bytes) {
+            Ok(h) => h,
+            Err(e) => {
+                r.viol(format!("file header unreadable by the reference walker [{ver}]"), format!("{ctx}: {e}"));
+                return None;
+            }
+        };
+        let bad = |field: &str, got: String, want: String, r: &mut CaseResult| {
+            r.viol(format!("file header field {field} differs from the request [{ver} {cls}]"), format!("{ctx}: got {got}, want {want}"));
+        };
+        if rh.version != c.tgt.ver {
+            bad("magic", rh.version.to_string(), c.tgt.ver.to_string(), r);
+        }
+        if rh.width != c.w || rh.height != c.h {
+            bad("width/height", format!("{}x{}", rh.width, rh.height), format!("{}x{}", c.w, c.h), r);
+        }
+        if (rh.has_mipmaps != 0) != c.mip {
+            bad("has_mipmaps", rh.has_mipmaps.to_string(), (c.mip as u32).to_string(), r);
+        }
+        let want_content = if kind == Kind::Jpeg { 0 } else { 1 };
+        if rh.content != want_content {
+            bad("content", rh.content.to_string(), want_content.to_string(), r);
+        }
+        if let Some(comp) = rh.compression {
+            let want = match kind {
+                Kind::Jpeg => 0,
+                Kind::Raw1(_) => 1,
+                Kind::Dxt(_) => 2,
+                Kind::Raw3 => 3,
+            };
+            if comp != want {
+                bad("compression", comp.to_string(), want.to_string(), r);
+            }
+        }
+        if let Kind::Raw1(b) = kind {
+            if rh.alpha_bits != b {
+                bad("alpha_bits", rh.alpha_bits.to_string(), b.to_string(), r);
+            }
+        }
+        let data_start = if kind == Kind::Jpeg {
+            match refblp::jpeg_header(bytes, &rh) {
+                Ok((_, s)) => s,
+                Err(e) => {
+                    r.viol(format!("jpeg header area unreadable by the reference walker [{ver}]"), format!("{ctx}: {e}"));
+                    return None;
+                }
+            }
+        } else {
+            match refblp::palette(bytes, &rh) {
+                Ok((_, s)) => s,
+                Err(e) => {
+                    r.viol(format!("palette unreadable by the reference walker [{ver} {cls}]"), format!("{ctx}: {e}"));
+                    return None;
+                }
+            }
+        };
+        let nt = t.image_count();
+        let mut out = vec![];
+        match rh.table {
+            None => {
+                // BLP0: levels are the external buffers
+                if ext.len() != nt {
+                    r.viol("encode_blp0: number of external mip buffers differs from the level count", format!("{ctx}: {} buffers, {nt} levels", ext.len()));
+                }
+                for (i, e) in ext.iter().enumerate() {
+                    let (lw, lh) = refblp::level_dims(c.w, c.h, i);
+                    if let Some(want) = refblp::level_bytes(kind, lw, lh) {
+                        if e.len() != want {
+                            r.viol(format!("external mip buffer size does not match its dimensions [{ver} {cls}]"), format!("{ctx}: level {i} ({lw}x{lh}) has {} bytes, expected {want}", e.len()));
+                        }
+                    }
+                    out.push(e.clone());
+                }
+            }
+            Some((offs, sizes)) => {
+                let n = sizes.iter().take_while(|&&s| s > 0).count();
+                r.count("table_entries_checked", 16);
+                if n != nt {
+                    r.viol(format!("offset table: number of non-empty entries differs from the level count [{ver} {cls}]"), format!("{ctx}: {n} entries, {nt} levels; sizes {:?}", sizes));
+                }
+                for i in n..16 {
+                    if sizes[i] != 0 {
+                        r.viol(format!("offset table: non-empty entry after an empty one [{ver} {cls}]"), format!("{ctx}: entry {i} = ({}, {})", offs[i], sizes[i]));
+                        break;
+                    }
+                }
+                let mut prev_end = data_start;
+                for i in 0..n {
+                    let (o, s) = (offs[i] as usize, sizes[i] as usize);
+                    let (lw, lh) = refblp::level_dims(c.w, c.h, i);
+                    if o < data_start {
+                        r.viol(format!("offset table: level lies inside the header/palette area [{ver} {cls}]"), format!("{ctx}: level {i} offset {o} < data start {data_start}"));
+                        return None;
+                    }
+                    if o + s > bytes.len() {
+                        r.viol(format!("offset table: level exceeds the file [{ver} {cls}]"), format!("{ctx}: level {i} offset {o} size {s}, file {}", bytes.len()));
+                        return None;
+                    }
+                    if o < prev_end {
+                        r.viol(format!("offset table: levels overlap or are out of order [{ver} {cls}]"), format!("{ctx}: level {i} offset {o} < end of previous {prev_end}"));
+                        return None;
+                    }
+                    if let Some(want) = refblp::level_bytes(kind, lw, lh) {
+                        if s != want {
+                            r.viol(format!("offset table: level size does not match its dimensions [{ver} {cls}]"), format!("{ctx}: level {i} ({lw}x{lh}) size {s}, expected {want}"));
+                        }
+                    }
+                    prev_end = o + s;
+                    out.push(bytes[o..o + s].to_vec());
+                }
+            }
+        }
+        Some(out)
+    }
+
+    fn pixels(&self, c: &Case, ctx: &str, src: &[[u8; 4]], bytes: &[u8], lvl: &[Vec<u8>], parsed: Option<&BlpImage>, r: &mut CaseResult) {
+        let ver = c.tgt.ver_name();
+        let cls = c.tgt.class();
+        let kind = c.tgt.kind();
+        let rh = match refblp::parse_header(bytes) {
+            Ok(h) => h,
+            Err(_) => return,
+        };
+        // library decode of every parsed level: must succeed with the level's dimensions
+        let mut lib: Vec<Option<Vec<[u8; 4]>>> = vec![];
+        if let Some(p) = parsed {
+            for i in 0..p.image_count() {
+                let (lw, lh) = refblp::level_dims(c.w, c.h, i);
+                if level_len(p, i) == 0 && kind != Kind::Jpeg {
+                    lib.push(None); // an appended empty level was already reported
+                    continue;
+                }
+                if kind == Kind::Jpeg && level_len(p, i) == 0 && i >= lvl.len() {
+                    lib.push(None);
+                    continue;
+                }
+                match blp_to_image(p, i) {
+                    Ok(im) => {
+                        r.count("levels_decoded_by_library", 1);
+                        if (im.width(), im.height()) != (lw, lh) {
+                            r.viol(format!("blp_to_image: decoded level has wrong dimensions [{ver} {cls}]"), format!("{ctx}: level {i} is {}x{}, expected {lw}x{lh}", im.width(), im.height()));
+                            lib.push(None);
+                        } else {
+                            lib.push(Some(rgba_of(&im)));
+                        }
+                    }
+                    Err(e) => {
+                        r.viol(format!("blp_to_image fails on a parsed level [{ver} {cls}]"), format!("{ctx}: level {i}: {e}"));
+                        lib.push(None);
+                    }
+                }
+            }
+        }
+        match kind {
+            Kind::Raw3 => {
+                for (i, data) in lvl.iter().enumerate() {
+                    let (lw, lh) = refblp::level_dims(c.w, c.h, i);
+                    let Ok(refpx) = refblp::decode_raw3(data, lw, lh) else { continue };
+                    r.count("levels_decoded_by_reference", 1);
+                    if i == 0 {
+                        if let Some(k) = first_diff(&refpx, src) {
+                            r.viol("raw3: level-0 pixels stored in the file differ from the source pixels", format!("{ctx}: pixel {k}: file {:?} source {:?}", refpx.get(k), src.get(k)));
+                        }
+                    }
+                    if let Some(Some(l)) = lib.get(i) {
+                        if let Some(k) = first_diff(l, &refpx) {
+                            r.viol("raw3: blp_to_image disagrees with the BGRA bytes in the file", format!("{ctx}: level {i} pixel {k}: library {:?} file {:?}", l.get(k), refpx.get(k)));
+                        } else if i == 0 {
+                            r.count("raw3_exact_pixel_matches", refpx.len() as u64);
+                        }
+                    }
+                }
+            }
+            Kind::Raw1(bits) => {
+                let Ok((pal, _)) = refblp::palette(bytes, &rh) else { return };
+                for (i, data) in lvl.iter().enumerate() {
+                    let (lw, lh) = refblp::level_dims(c.w, c.h, i);
+                    let Ok(refpx) = refblp::decode_raw1(data, lw, lh, bits) else { continue };
+                    r.count("levels_decoded_by_reference", 1);
+                    if i == 0 && refpx.len() == src.len() {
+                        // alpha == source alpha quantised to the declared depth
+                        let (mut max0, mut min1) = (-1i32, 256i32);
+                        for (k, &(_, a)) in refpx.iter().enumerate() {
+                            let s = src[k][3];
+                            let ok = match bits {
+                                8 => a == s,
+                                4 => {
+                                    let q = a / 17;
+                                    q == ((s as u32 * 15 + 127) / 255) as u8 || q == s >> 4
+                                }
+                                1 => {
+                                    if a == 0 {
+                                        max0 = max0.max(s as i32);
+                                    } else {
+                                        min1 = min1.min(s as i32);
+                                    }
+                                    !(s == 0 && a != 0) && !(s == 255 && a != 255)
+                                }
+                                _ => true,
+                            };
+                            if !ok {
+                                r.viol(format!("raw1: stored alpha is not the source alpha quantised to the declared depth [a{bits}]"), format!("{ctx}: pixel {k}: source alpha {s}, stored (expanded) {a}"));
+                                break;
+                            }
+                        }
+                        if bits == 1 && max0 >= min1 {
+                            r.viol("raw1: stored alpha is not the source alpha quantised to the declared depth [a1]", format!("{ctx}: not monotone: alpha {max0} -> 0 but alpha {min1} -> 1"));
+                        }
+                        r.count("raw1_alpha_pixels_checked", refpx.len() as u64);
+                    }
+                    if let Some(Some(l)) = lib.get(i) {
+                        // every decoded colour is the palette entry selected by the stored index
+                        // (channel order of the palette bytes is not fixed by the property: accept R,G,B,x or B,G,R,x, consistently)
+                        let as_rgb = |k: usize| {
+                            let e = pal[refpx[k].0 as usize];
+                            [e[0], e[1], e[2]]
+                        };
+                        let as_bgr = |k: usize| {
+                            let e = pal[refpx[k].0 as usize];
+                            [e[2], e[1], e[0]]
+                        };
+                        let rgb_ok = (0..l.len()).all(|k| l[k][..3] == as_rgb(k));
+                        let bgr_ok = (0..l.len()).all(|k| l[k][..3] == as_bgr(k));
+                        if !rgb_ok && !bgr_ok {
+                            let k = (0..l.len()).find(|&k| l[k][..3] != as_rgb(k)).unwrap_or(0);
+                            r.viol("raw1: decoded colour is not the palette entry selected by the stored index", format!("{ctx}: level {i} pixel {k}: library {:?}, palette[{}] bytes {:?}", l[k], refpx[k].0, pal[refpx[k].0 as usize]));
+                        } else {
+                            if rgb_ok && !bgr_ok {
+                                r.count("raw1_levels_palette_bytes_in_RGBx_order", 1);
+                            }
+                            if bgr_ok && !rgb_ok {
+                                r.count("raw1_levels_palette_bytes_in_BGRx_order", 1);
+                            }
+                        }
+                        if let Some(k) = (0..l.len()).find(|&k| l[k][3] != refpx[k].1) {
+                            r.viol(format!("raw1: blp_to_image alpha disagrees with the alpha bits in the file [a{bits}]"), format!("{ctx}: level {i} pixel {k}: library {} file {}", l[k][3], refpx[k].1));
+                        }
+                    }
+                }
+            }
+            Kind::Jpeg => {
+                let Ok((jh, _)) = refblp::jpeg_header(bytes, &rh) else { return };
+                for (i, data) in lvl.iter().enumerate() {
+                    let (lw, lh) = refblp::level_dims(c.w, c.h, i);
+                    let mut full = jh.clone();
+                    full.extend(data);
+                    match image::load_from_memory_with_format(&full, image::ImageFormat::Jpeg) {
+                        Ok(im) => {
+                            r.count("levels_decoded_by_reference", 1);
+                            if (im.width(), im.height()) != (lw, lh) {
+                                r.viol(format!("jpeg: stored level has wrong dimensions [{ver}]"), format!("{ctx}: level {i} is {}x{}, expected {lw}x{lh}", im.width(), im.height()));
+                            }
+                        }
+                        Err(e) => r.viol(format!("jpeg: header+level bytes in the file are not a decodable JPEG [{ver}]"), format!("{ctx}: level {i}: {e}")),
+                    }
+                }
+            }
+            Kind::Dxt(_) => {}
+        }
+    }
+}
+
+impl Space for Main {
+    fn len(&self) -> u64 {
+        gen::product(&self.radices())
+    }
+    fn describe(&self, i: u64) -> Value {
+        describe_case(&self.sub_case(i, 0))
+    }
+    fn run(&self, i: u64) -> CaseResult {
+        let mut r = CaseResult::new();
+        r.key = self.describe(i).to_string();
+        let _ = self.tier;
+        let mut outcomes: Vec<String> = vec![];
+        let mut refused = 0;
+        for sub in 0..self.subs() {
+            let c = self.sub_case(i, sub);
+            let mut s = CaseResult::new();
+            // a panic in one setting must not hide the others
+            guard_case(&mut s, "sub-evaluation", |s| self.judge(i * 1000 + sub, &c, s));
+            r.count("sub_evaluations", 1);
+            if s.nontrivial {
+                r.nontrivial = true;
+            }
+            if s.err_return {
+                refused += 1;
+            }
+            for (k, n) in s.counters {
+                r.count(&k, n);
+            }
+            for v in s.viols {
+                // one report per symptom class and case (first = simplest setting)
+                if !r.viols.iter().any(|x| x.symptom == v.symptom) {
+                    r.viols.push(v);
+                } else {
+                    r.count("further_occurrences_of_reported_symptoms", 1);
+                }
+            }
+            if !outcomes.contains(&s.outcome) {
+                outcomes.push(s.outcome);
+            }
+        }
+        r.err_return = refused == self.subs();
+        outcomes.sort();
+        r.outcome = outcomes.join(",");
+        r
+    }
+    fn case_timeout(&self) -> u64 {
+        300
+    }
+}
+
+fn build(name: &str, _arg: &str, tier: Tier) -> Box<dyn Space> {
+    match name {
+        "main" => Box::new(Main::new(tier)),
+        _ => panic!("space {name}"),
+    }
+}
+
+/// `c16 --repro`: stand-alone demonstrations of the defects on minimal inputs, real API only.
+fn repro() {
+    let img = |w: u32, h: u32| DynamicImage::ImageRgba8(RgbaImage::from_fn(w, h, |x, y| image::Rgba([(x * 40) as u8, (y * 90) as u8, 7, 255])));
+    println!("== R1 convert/mipmap.rs generate_mipmaps: chain of a non-square image never reaches 1x1");
+    for (w, h) in [(4, 2), (8, 2), (256, 64), (1, 512)] {
+        let t = image_to_blp(img(w, h), true, BlpTarget::Blp2(Blp2Format::Raw3), FilterType::Nearest).unwrap();
+        let n = t.image_count();
+        println!("   {w}x{h} raw3 mipmaps=on: image_count()={n}, last level {:?}; header.mipmaps_count()+1={} ", t.header.mipmap_size(n - 1), t.header.mipmaps_count() + 1);
+    }
+    println!("== R2 parser/direct/blp2.rs parse_dxtn: blocks = ceil(w*h/16) instead of ceil(w/4)*ceil(h/4)");
+    for (w, h) in [(5, 5), (8, 2), (1, 5), (6, 6)] {
+        let t = image_to_blp(img(w, h), false, BlpTarget::Blp2(Blp2Format::Dxt1 { has_alpha: false, compress_algorithm: DxtAlgorithm::RangeFit }), FilterType::Nearest).unwrap();
+        let b = encode_blp(&t).unwrap();
+        let p = parse_blp(&b).unwrap();
+        println!("   {w}x{h} dxt1 mipmaps=off: written level 0 = {} bytes, parsed level 0 = {} bytes, parse(encode(t))==t: {}", level_len(&t, 0), level_len(&p, 0), p == t);
+    }
+    println!("== R3 parse_dxtn / parse_jpeg_content read mipmaps_count()+1 table entries even when size==0");
+    for tgt in [BlpTarget::Blp2(Blp2Format::Dxt1 { has_alpha: false, compress_algorithm: DxtAlgorithm::RangeFit }), BlpTarget::Blp1(BlpOldFormat::Jpeg { has_alpha: false })] {
+        let name = format!("{tgt}");
+        let t = image_to_blp(img(4, 2), true, tgt, FilterType::Nearest).unwrap();
+        let p = parse_blp(&encode_blp(&t).unwrap()).unwrap();
+        println!("   4x2 {name} mipmaps=on: written {} levels, parsed {} levels (sizes of parsed: {:?}), equal: {}", t.image_count(), p.image_count(), (0..p.image_count()).map(|i| level_len(&p, i)).collect::<Vec<_>>(), p == t);
+    }
+    println!("== R4 BLP0: parser wants mipmaps_count()+1 external files, encode_blp0 produced fewer");
+    let t = image_to_blp(img(4, 2), true, BlpTarget::Blp0(BlpOldFormat::Raw1 { alpha_bits: AlphaBits::Bit8 }), FilterType::Nearest).unwrap();
+    let e = encode_blp0(&t).unwrap();
+    let ext = &e.blp_mipmaps;
+    let res = parse_blp_with_externals(&e.blp_bytes, move |i| Ok(ext.get(i).map(|v| v.as_slice())));
+    println!("   4x2 BLP0 raw1 mipmaps=on: {} external buffers; parse: {}", e.blp_mipmaps.len(), match res { Ok(_) => "Ok".to_string(), Err(e) => format!("Err({e})") });
+    println!("== control: square 4x4 with mipmaps round-trips in every target");
+    let t = image_to_blp(img(4, 4), true, BlpTarget::Blp2(Blp2Format::Dxt5 { has_alpha: true, compress_algorithm: DxtAlgorithm::RangeFit }), FilterType::Nearest).unwrap();
+    println!("   4x4 dxt5 mipmaps=on: levels {} equal {}", t.image_count(), parse_blp(&encode_blp(&t).unwrap()).unwrap() == t);
+}
+
+fn main() {
+    if std::env::args().any(|a| a == "--repro") {
+        repro();
+        return;
+    }
+    // texpresso is built with its rayon feature; the engine already runs one worker per core
+    std::env::set_var("RAYON_NUM_THREADS", "1");
+    let Mode::Supervisor(mut c) = start("C16", "exploration", build) else { return };
+    let tier = c.tier;
+    let (d, t, f) = (dims(tier), targets(tier), filters(tier));
+    c.rule = format!(
+        "full product: {} image sizes ({}) x {} pixel classes x {} targets (BLP2: raw3, raw1 a0/1/4/8, dxt1/3/5 +-alpha, jpeg +-alpha; BLP1 and BLP0: raw1 a0/1/4/8, jpeg +-alpha{}) x (mipmaps off | mipmaps on x {} filters). \
+         One case = image_to_blp -> encode_blp/encode_blp0 -> parse_blp/parse_blp_with_externals (+ save_blp/load_blp for BLP0) -> blp_to_image, judged by PartialEq on BlpImage and by an independent byte-level walker. \
+         One engine case = (target, image size); its inner loop runs every pixel class x mipmap setting (counter sub_evaluations), reporting each symptom class once per case. \
+         A case is non-trivial when the converter accepted at least one image (bytes were produced); distinct by (target, size).",
+        d.len(),
+        match tier {
+            Tier::Quick => DIMS_QUICK,
+            Tier::Thorough => DIMS_THOROUGH,
+        },
+        PIXEL_CLASSES.len(),
+        t.len(),
+        if tier == Tier::Thorough { "; + ClusterFit for dxt1/3/5 alpha and IterativeClusterFit for dxt5" } else { "; DXT with RangeFit" },
+        f.len()
+    );
+    c.assume("the `image` crate (JPEG codec, resize) and `texpresso` are trusted third-party code; lossy encodings (JPEG, DXT) are judged on structure and dimensions only");
+    c.assume("reference walker/decoder /verif/harness/props/c16/src/refblp.rs is written from /repo/docs/src/formats/graphics/blp.md and reads file bytes only");
+    c.assume("alpha quantisation: 8 bit exact; 4 bit either round-to-nearest or truncation of the source alpha; 1 bit any monotone threshold with 0->0 and 255->1 (the property fixes the depth, not the rounding rule)");
+    c.assume("palette byte order (R,G,B,x vs B,G,R,x) is not fixed by the property; either is accepted if used consistently (observed order is reported in the counters)");
+    c.assume("pixel preservation is judged on level 0 (the source image); lower levels are judged on dimensions, sizes and library-vs-reference decode agreement");
+    c.run_space("main", "");
+    c.extra_cov.insert(
+        "axes".into(),
+        json!({"image_sizes": d.len(), "pixel_classes": PIXEL_CLASSES.len(), "targets": t.len(), "mip_filter_settings": 1 + f.len(),
+               "nonsquare_sizes": d.iter().filter(|(w, h)| w != h).count(), "non_pow2_sizes": d.iter().filter(|(w, h)| !(w.is_power_of_two() && h.is_power_of_two())).count()}),
+    );
+    c.finish();
+}
